@@ -31,6 +31,16 @@ checks = {
    "values: every typed accessor (26) is compared with the reference parse - last occurrence, all occurrences in wire order with packed runs expanded, "
    "nested paths to depth 2 incl. empty sub-messages, raw bytes through negative tags, ErrTagNotFound/ErrTagNotDefined/ErrNestingNotDefined via errors.Is, "
    "wire-type mismatch and 32-bit overflow as errors; plus: arbitrary byte strings of length <= 4/6 through both entry points and all accessors never panic.", "§5 C13"),
+ "C14": ("model_checking",
+   "Bounded histories on one pooled lazy Decoder: NewDecoder with symbolic options (mode, WithMaxBufferSize in {absent,0,1,3}, filter in {absent,cap/2,0,-1}), "
+   "then 2-3 cycles Decode -> all accessors / NestedResults / Range -> Close on inputs of different shapes (more, fewer, zero, more occurrences) with symbolic "
+   "values; sync.Pool modelled as recycle / always-fresh / fork-at-every-Get. Obligations: every accessor equals the reference content of that cycle's input "
+   "alone, no panic anywhere incl. Close, and in safe mode everything handed out earlier is unchanged after Close and later decodes.", "§5 C14"),
+ "C15": ("other",
+   "Thread-modular ownership obligation on every feasible single-thread path (no schedule enumerated): after NewDecoder everything reachable from the Decoder "
+   "and all package variables are shared and must not be written non-atomically; pooled results are owned between Get and Put. Two simultaneously live results "
+   "(the single-thread projection of two goroutines) each expose only their own input under an adversarial pool. Violations are replayed as an 8-goroutine "
+   "workload under the Go race detector.", "§5 C15"),
 }
 
 na = [
